@@ -139,6 +139,31 @@ def prune_service_runonce(chk, prog):
             setup=world.setup, max_paths=100000, intr={A + 'WakePublishListeners': intr_wake_log})
 
 
+def stream_acks_nacks(chk, prog):
+    """a stream request that carries acks and nacks is applied as one unit (MessageStreamer.doAcksNacks)"""
+    def harness(ex, ob):
+        db = reldb.sym_db(ex, prog, {'Topic': 1, 'Subscription': 1, 'Message': 1, 'Delivery': 2}, exists=True)
+        for s in db.t['Subscription']:
+            ex.assume(s.isnull('max_delivery_attempts'))
+        client = reldb.make_client(ex, db)
+        ex.env['fault'] = fault_hook(ex)
+        ex.env['retry_after_fault'] = False
+        ms = ex.new_ptr(ex.new_struct(A + 'MessageStreamer', Client=client, SubscriptionID=ex.new_ptr(db.t['Subscription'][0].v['id']), Logger=Opaque('logger')))
+        d0, d1 = db.t['Delivery']
+        pre = db.snapshot()
+        err = ex.call_named('(*' + A + 'MessageStreamer).doAcksNacks', [ms, stdlib.new_context(ex), ex.mkslice([d0.v['id']]), ex.mkslice([d1.v['id']])])
+        fs = ex.env['fault_state']
+        if fs['fired'] is not None:
+            ob.verify(ex, 'failed-ack+nack-is-reported', err is not None)
+            for en in reldb.ENTITIES:
+                ob.verify(ex, 'failed-ack+nack-persists-nothing:' + en, table_same(ex, pre[en], db.t[en]))
+            ob.verify(ex, 'failed-ack+nack-wakes-nobody', not any(x[0] == 'wake-publish' for x in ex.events))
+        else:
+            ob.verify(ex, 'fault-free-ack+nack-succeeds', err is None)
+    chk.run('stream:acks-and-nacks-are-one-unit', prog, harness, bounds={'request': 'one ack id + one nack id', 'tables': '1 subscription, 2 deliveries'},
+            setup=world.setup, max_paths=100000, intr={A + 'WakePublishListeners': intr_wake_log})
+
+
 if __name__ == '__main__':
     chk = Check('C09')
     prog = load_program()
@@ -160,6 +185,7 @@ if __name__ == '__main__':
         run_transition(chk, prog, T, max_paths=400000, setup2=lambda xp: xp.intrinsics.__setitem__(A + 'WakePublishListeners', intr_wake_log))
     publish_batch_one_tx(chk, prog)
     prune_service_runonce(chk, prog)
+    stream_acks_nacks(chk, prog)
     chk.bounds = {'failing statement': 'any one of BEGIN, every SELECT/INSERT/UPDATE/DELETE, COMMIT (forked at each statement)', 'error kinds': 'driver error, context cancelled',
                   'tables': 'per obligation'}
     chk.assumptions += ['transaction contract of the store: Rollback (or a failed COMMIT) restores the state at BEGIN; a cancelled context makes database/sql roll back and a later Rollback return ErrTxDone',
